@@ -143,6 +143,12 @@ class Check(HCheck):
         ctx.obs(obs)
         lo = sorted(t.links_iter(out=True))
         li = sorted((b, a) for a, b in t.links_iter(out=False))
+        # the direction switch given as a falsy / truthy non-boolean (0, None, 1) means the same
+        for alt, ref in ((0, li), (None, li), (1, lo)):
+            got = sorted(t.links_iter(out=alt)) if alt else sorted((b, a) for a, b in t.links_iter(out=alt))
+            if got != ref:
+                ctx.fail("links-enum-direction-arg", "links_iter(out=%r) enumerates %r; links_iter(out=%s) enumerates %r" % (alt, got[:6], bool(alt), ref[:6]))
+                return
         # the two enumerations alive at the same time, advanced in turns, with a page-link query
         # issued in between (two link-list walks suspended at once)
         g1, g2 = t.links_iter(out=True), t.links_iter(out=False)
